@@ -10,14 +10,17 @@ namespace AioslskVerif.C20
 open AioslskVerif.Rate AioslskVerif.Generated.Rate
 
 /-- With no limit a request for tokens is answered at once with a positive grant. -/
-theorem C20_unlimited (now : Nat) :
-    (Limiter.poll .unlimited now).2 = unlimitedGrant ∧ 0 < unlimitedGrant := by
+theorem C20_unlimited (b last now : Nat) :
+    (Limiter.poll (.unlimited b last) now).2 = unlimitedGrant ∧ 0 < unlimitedGrant := by
   exact ⟨rfl, by decide⟩
 
-/-- `create_limiter`: 0 means unlimited, anything else a limited limiter of `kbps·1024` B/s. -/
+/-- `create_limiter` + `copy_tokens`: 0 means unlimited (the bucket and the refill clock of the replaced
+limiter are kept for the limiter that will replace this one), anything else a limited limiter of
+`kbps·1024` B/s that takes over the old tokens (capped) and the old refill clock. -/
 theorem C20_create (old : Limiter) (kbps : Nat) :
-    (kbps = 0 → setLimit old kbps = .unlimited) ∧
-    (0 < kbps → ∃ l, setLimit old kbps = .limited l ∧ l.L = kbps * bytesPerKb ∧ l.bucket ≤ l.L) := by
+    (kbps = 0 → setLimit old kbps = .unlimited old.bucket old.last) ∧
+    (0 < kbps → ∃ l, setLimit old kbps = .limited l ∧ l.L = kbps * bytesPerKb ∧ l.bucket ≤ l.L ∧
+        l.bucket ≤ old.bucket ∧ l.last = old.last) := by
   constructor
   · intro h; simp [setLimit, h]
   · intro h
@@ -25,22 +28,24 @@ theorem C20_create (old : Limiter) (kbps : Nat) :
     unfold setLimit addTokens
     simp only [this, if_false]
     split
-    · exact ⟨_, rfl, rfl, Nat.le_refl _⟩
-    · exact ⟨_, rfl, rfl, by dsimp only; omega⟩
+    · exact ⟨_, rfl, rfl, Nat.le_refl _, by dsimp only; omega, rfl⟩
+    · exact ⟨_, rfl, rfl, by dsimp only; omega, by dsimp only; omega, rfl⟩
 
-/-- **Window bound, every run with a positive limit (limit changes included).**
-For any sequence of polls and limit changes (all limits positive and ≤ `Lmax`) the bytes granted
-are at most `Lmax·T + Lmax` plus one grant quantum (128 B) per "full-bucket" event — at most one
-at the start of the window and one per limit change. The quantum term is the known finding
-`C20-full-bucket-stale-clock`: a poll that finds the bucket full does not advance the refill
-clock, so the next refill credits the idle period again. -/
-theorem C20_window_piecewise_partial (Lmax : Nat) (ops : List Op) (l : Lim) (now G : Nat)
-    (hwf : l.WF now) (hL : l.L ≤ Lmax) (hops : LimitsWithin Lmax ops) :
-    1024 * ((run { lim := .limited l, now := now, granted := G } ops).granted - G)
+/-- **Window bound, every run (limit changes and periods without a limit included).**
+For any sequence of polls and limit changes (all limits ≤ `Lmax`; 0 = "no limit" allowed) starting from any
+well-formed limiter object, the bytes granted *while a limit is in force* are at most `Lmax·T + Lmax` plus one
+grant quantum (128 B) per "full-bucket" event — at most one at the start of the window and one per limit
+change. Passing through "no limit" hands out nothing extra: the unlimited limiter keeps the bucket and the
+refill clock for its successor. The quantum term is the known finding `C20-full-bucket-stale-clock`: a poll
+that finds the bucket full does not advance the refill clock, so the next refill credits the idle period again. -/
+theorem C20_window_piecewise_partial (Lmax : Nat) (ops : List Op) (lim : Limiter) (now G : Nat)
+    (hwf : lim.WF now Lmax) (hops : LimitsWithin Lmax ops) :
+    1024 * ((run { lim := lim, now := now, granted := G } ops).granted - G)
       ≤ Lmax * elapsed ops + 1024 * Lmax + 1024 * minBucket * (1 + changes ops) := by
-  obtain ⟨l', _, _, _, _, h⟩ := run_phi Lmax ops l now G hwf hL hops
-  have h1 := phi_ge Lmax l' (now + elapsed ops) (run { lim := .limited l, now := now, granted := G } ops).granted
-  have h2 := phi_le Lmax l now G
+  obtain ⟨_, _, h⟩ := run_phi Lmax ops lim now G hwf hops
+  have h1 := phiL_ge Lmax (run { lim := lim, now := now, granted := G } ops).lim (now + elapsed ops)
+    (run { lim := lim, now := now, granted := G } ops).granted
+  have h2 := phiL_le Lmax lim now G
   rw [Nat.mul_add, Nat.mul_one]
   omega
 
@@ -50,10 +55,12 @@ theorem C20_window (ops : List Op) (l : Lim) (now G : Nat)
     (hwf : l.WF now) (hnf : l.bucket < l.L) (hops : LimitsWithin l.L ops) (hnc : changes ops = 0) :
     1024 * ((run { lim := .limited l, now := now, granted := G } ops).granted - G)
       ≤ l.L * elapsed ops + 1024 * l.L := by
-  obtain ⟨l', _, _, _, _, h⟩ := run_phi l.L ops l now G hwf (Nat.le_refl _) hops
-  have h1 := phi_ge l.L l' (now + elapsed ops) (run { lim := .limited l, now := now, granted := G } ops).granted
+  obtain ⟨_, _, h⟩ := run_phi l.L ops (.limited l) now G ⟨hwf, Nat.le_refl _⟩ hops
+  have h1 := phiL_ge l.L (run { lim := .limited l, now := now, granted := G } ops).lim (now + elapsed ops)
+    (run { lim := .limited l, now := now, granted := G } ops).granted
   have h2 := phi_le_notfull l.L l now G hnf
-  rw [hnc] at h
+  have h3 : phiL l.L (.limited l) now G = phi l.L l now G := rfl
+  rw [hnc, h3] at h
   omega
 
 /-- The full-strength bound is **false** of the code as it stands when the window starts on a
@@ -65,13 +72,15 @@ theorem C20_window_counterexample :
           (List.replicate 9 (.poll 0))).granted - 0) ≤ 1024 * elapsed (List.replicate 9 (.poll 0)) + 1024 * 1024) := by
   decide
 
-/-- Bucket never exceeds the limit and the limiter stays limited, whatever the history. -/
-theorem C20_bucket_bounded (Lmax : Nat) (ops : List Op) (l : Lim) (now G : Nat)
-    (hwf : l.WF now) (hL : l.L ≤ Lmax) (hops : LimitsWithin Lmax ops) :
-    ∃ l', (run { lim := .limited l, now := now, granted := G } ops).lim = .limited l' ∧
+/-- Bucket never exceeds the limit, whatever the history (limit changes, periods without a limit). -/
+theorem C20_bucket_bounded (Lmax : Nat) (ops : List Op) (lim : Limiter) (now G : Nat)
+    (hwf : lim.WF now Lmax) (hops : LimitsWithin Lmax ops) :
+    ∀ l', (run { lim := lim, now := now, granted := G } ops).lim = .limited l' →
       l'.bucket ≤ l'.L ∧ l'.L ≤ Lmax := by
-  obtain ⟨l', h1, h2, h3, _, _⟩ := run_phi Lmax ops l now G hwf hL hops
-  exact ⟨l', h1, h2.1, h3⟩
+  intro l' hl
+  obtain ⟨h1, _, _⟩ := run_phi Lmax ops lim now G hwf hops
+  rw [hl] at h1
+  exact ⟨h1.1.1, h1.2⟩
 
 /-- **Progress, lone waiter.** With a positive limit (`L ≥ 1024`) a poller that re-polls no sooner
 than 10 ticks (< `INTERVAL` = 10 ms) after an empty poll is granted tokens within 16 polls. -/
@@ -118,7 +127,11 @@ theorem C20_constants : 10 * 1000 ≤ intervalMs * tps ∧ 1024 ≤ 1 * bytesPer
 
 /-! Non-vacuity: the hypotheses are met by reachable states. -/
 example : ({ L := 2048, bucket := 100, last := 5 } : Lim).WF 7 := by unfold Lim.WF; decide
-example : LimitsWithin 4096 [.poll 3, .setLimit 4, .poll 0, .setLimit 1] := by simp [LimitsWithin]; decide
+example : LimitsWithin 4096 [.poll 3, .setLimit 4, .poll 0, .setLimit 0, .poll 7, .setLimit 1] := by simp [LimitsWithin]; decide
+example : (Limiter.limited { L := 2048, bucket := 100, last := 5 }).WF 7 4096 := by unfold Limiter.WF Lim.WF; decide
+-- off and on again at one instant hands out nothing extra: 8 grants of 128 B = the 1024 tokens that were there
+example : (run { lim := .limited { L := 1024, bucket := 1024, last := 100 }, now := 100, granted := 0 }
+    ([.setLimit 0, .poll 0, .setLimit 1] ++ List.replicate 12 (.poll 0))).granted = 1024 := by decide
 example : (polls { L := 1024, bucket := 0, last := 0 } 0 (List.replicate 16 10)).2.2 = 128 := by decide
 example : (lrun { o := { lim := { L := 1024, bucket := 300, last := 0 }, holder := none, queue := [] }, now := 0,
                   arrivals := [], served := [] }
